@@ -434,11 +434,38 @@ func exec1(op string, a []string) string {
 		t0 := blockchain.BuildMerkleTreeStore(txs, false)
 		again := r1 == r2 && w1 == w2 && *t1[len(t1)-1] == keep1 && *t0[len(t0)-1] == keep0 &&
 			keep0 == r1 && keep1 == w1
-		for i, tx := range txs {
+		for _, tx := range txs {
 			if *tx.Hash() != tx.MsgTx().TxHash() || *tx.WitnessHash() != tx.MsgTx().WitnessHash() {
 				again = false
 			}
-			_ = i
+		}
+		// the same slice shared by concurrent callers; afterwards the slice
+		// still holds the same transactions in the same order
+		held := append([]*btcutil.Tx(nil), txs...)
+		var wg sync.WaitGroup
+		var mu sync.Mutex
+		for gi := 0; gi < 4; gi++ {
+			wg.Add(1)
+			go func(gi int) {
+				defer wg.Done()
+				w := gi%2 == 1
+				want := r1
+				if w {
+					want = w1
+				}
+				st := blockchain.BuildMerkleTreeStore(txs, w)
+				if blockchain.CalcMerkleRoot(txs, w) != want || *st[len(st)-1] != want {
+					mu.Lock()
+					again = false
+					mu.Unlock()
+				}
+			}(gi)
+		}
+		wg.Wait()
+		for i := range txs {
+			if txs[i] != held[i] {
+				again = false
+			}
 		}
 		return "r=" + hex.EncodeToString(r1[:]) + " w=" + hex.EncodeToString(w1[:]) + " again=" + b01(again)
 	case "sanity":
